@@ -162,6 +162,11 @@ def rule_r2_single_worker(ck, prog, cg, roles, per_cycle_ok=False):
         g = Graph(prog, sf, inline=None, sync_lambdas=False)
         starts = g.calls('std::thread::thread')
         joins = g.calls('std::thread::join')
+        detaches = g.calls('std::thread::detach')
+        if detaches:
+            ck.violation('C03.R2', sf, site + ':no-detach', detaches[0].n,
+                         'a task thread that reaches the exporter can be detached: it keeps running (and may still be inside Export) after the cycle that started it has ended - the next cycle\'s Export overlaps it, and it can outlive Shutdown')
+            continue
 
         from .common import no_thread_edge as infeasible
         ok = True
